@@ -5,7 +5,7 @@ leaves: field reads (`x.abi_name` with the base type), string literals, paramete
 import common as C
 
 PASS_M = {"as_str", "into", "to_string", "to_owned", "clone", "as_ref", "as_deref", "unwrap", "expect", "borrow", "deref", "into_owned", "as_bytes",
-          "to_syn", "unwrap_or_default", "cloned", "copied", "as_mut", "trim"}
+          "to_syn", "unwrap_or_default", "cloned", "copied", "as_mut", "trim", "iter", "into_iter", "collect"}
 PASS_CALLS = ("convert::From::from", "string::String::from", "Ident::new", "convert::Into::into", "IdentBuf::from", "borrow::Cow::Borrowed", "borrow::Cow::Owned",
               "option::Option::Some", "boxed::Box::new", "string::ToString::to_string", "alloc::borrow::ToOwned::to_owned")
 
